@@ -212,7 +212,7 @@ func runForeign(c jobCase) {
 				if fs.Unsup != nil && fs.Unsup.RG == gi && fs.Unsup.Col == ci {
 					f := fs.Unsup.Feature
 					switch {
-					case f == "dict" || len(f) > 6 && f[:6] == "codec-":
+					case f == "dict" || f == "dict-rle" || len(f) > 6 && f[:6] == "codec-":
 						ch.Feature = f
 					case fs.Unsup.Page == pi || fs.Unsup.Page >= len(counts) && pi == len(counts)-1:
 						p.Feature = f
